@@ -1363,6 +1363,39 @@ impl Scenario for DynScen {
     }
     fn gen(&self, rng: &mut Rng, base_seed: u64, run: u64, _tier: Tier) -> Plan {
         let mut p = Plan::new("dyn", base_seed, run);
+        if rng.chance(1, 25_000) {
+            // a list field whose items are separated by a foreign element with thousands of
+            // nested levels inside: skipping / buffering that subtree must not use stack in
+            // proportion to its depth. Run in a child process (see `isolate`).
+            let plain: Vec<u8> = (0..N_FSETS as u8)
+                .filter(|&i| fset(i).len() >= 2 && fset(i).iter().all(|n| !n.starts_with('@') && !n.starts_with('$') && *n != "xsi:nil"))
+                .collect();
+            let set = *rng.pick(&plain);
+            let names = fset(set);
+            let fields: Vec<Shape> = (0..names.len()).map(|i| if i == 0 { Shape::Seq(Box::new(Shape::String)) } else { Shape::String }).collect();
+            p.shape = Some(Shape::Struct { name: 0, set, fields, deny_unknown: false, defaults: true });
+            let depth = *rng.pick(&[3000usize, 9000, 12000]);
+            let inner = *rng.pick(&["d", "zz", names[0]]);
+            let mut doc = format!("<root><{0}>x</{0}><zz>", names[0]);
+            for _ in 0..depth {
+                doc.push_str(&format!("<{}>", inner));
+            }
+            for _ in 0..depth {
+                doc.push_str(&format!("</{}>", inner));
+            }
+            doc.push_str(&format!("</zz><{0}>y</{0}></root>", names[0]));
+            p.doc = doc.into_bytes();
+            p.isolate = true;
+            p.note = format!("list items separated by an element nested {} deep; isolated", depth);
+            let (mut st, mode) = gen_stream(rng, &p.doc, false);
+            st.keep_buf = false;
+            st.faults.clear();
+            // (coarse pieces: the point is the depth, not the chunking)
+            st.cuts.retain(|c| c % 4096 == 0);
+            p.stream = st;
+            p.note.push_str(&format!("; cuts: {}", mode));
+            return p;
+        }
         let mut shuffle = 2;
         let mut untouched = 5;
         let shape = match rng.below(10) {
@@ -1419,6 +1452,16 @@ impl Scenario for DynScen {
     }
 
     fn exec(&self, plan: &Plan, st: &mut Stats) -> Vec<Violation> {
+        if plan.isolate && std::env::var_os("QXSIM_CHILD").is_none() {
+            // very deep documents: a stack overflow of the library would take the whole check
+            // down, so this plan runs in a child process
+            st.executions += 2;
+            st.bump("dyn.plans_run_in_a_child_process");
+            st.note_distinct(plan.hash64(), true);
+            let vs = crate::driver::exec_isolated(self, plan);
+            st.fold_digest(plan.run, fnv_bytes(format!("{:?}", vs.iter().map(|v| &v.kind).collect::<Vec<_>>()).as_bytes()));
+            return vs;
+        }
         let mut out = vec![];
         let shape = match &plan.shape {
             Some(s) => Rc::new(s.clone()),
